@@ -3,10 +3,11 @@ package proj
 import (
 	"fmt"
 	"math"
+	"strings"
 )
 
 func checkNotWGS(source, dest *SR) bool {
-	return ((source.datum.datum_type == pjd3Param || source.datum.datum_type == pjd7Param) && dest.DatumCode != "WGS84")
+	return ((source.datum.datum_type == pjd3Param || source.datum.datum_type == pjd7Param) && !strings.EqualFold(dest.DatumCode, "WGS84"))
 }
 
 const enu = "enu"
